@@ -786,8 +786,6 @@ struct Viol {
 struct RunOut {
     /// the violation that ended the history
     viol: Option<Viol>,
-    /// violations after which the history continued (row-id counter restart: worked around by burning ids)
-    soft: Vec<Viol>,
     events_judged: u64,
     /// (event name, did measurable work) per judged event
     event_kinds: Vec<(&'static str, bool)>,
@@ -852,14 +850,6 @@ fn runner_row(m: &TabMeta, n: i64) -> (Vec<String>, Vec<V>) {
     (names, vals)
 }
 
-/// consume `k` row ids in a fresh table (work-around for the row-id counter restarting at 1 on open)
-fn burn_row_ids(db: &mut Db, session: usize, k: usize) {
-    let bt = format!("zz_burn{}", session);
-    let _ = db.exec(&format!("CREATE TABLE {} (id BIGINT PRIMARY KEY)", bt));
-    let vals: Vec<String> = (1..=k).map(|n| format!("({})", n)).collect();
-    let _ = db.exec(&format!("INSERT INTO {} (id) VALUES {}", bt, vals.join(", ")));
-}
-
 /// insert one row with an auto-assigned id; returns the id
 fn auto_insert(db: &mut Db, name: &str, m: &TabMeta, n: i64) -> Result<i64, String> {
     let (names, vals) = runner_row(m, n);
@@ -892,18 +882,11 @@ fn run_history(ops: &[Op], wal: bool, dir: &Path, probe_dir: &Path, full: bool) 
     let mut runner_n: i64 = 0;
     // rows the runner itself inserted per table (the generator's model does not know them)
     let mut runner_added: BTreeMap<String, usize> = BTreeMap::new();
-    // row ids consumed in this session / largest number any session consumed (bound on the largest row key)
-    let mut session_ids: usize = 0;
-    let mut max_key_bound: usize = 0;
-    let mut sessions: usize = 0;
     for (i, op) in ops.iter().enumerate() {
         out.log.push(op.text());
         match op {
             Op::Sql { sql, meta, .. } => {
                 let d = db.as_mut().unwrap();
-                if let Meta::Rows(n) = meta {
-                    session_ids += *n;
-                }
                 match d.exec(sql) {
                     Err(e) => {
                         out.stmt_errors += 1;
@@ -984,7 +967,6 @@ fn run_history(ops: &[Op], wal: bool, dir: &Path, probe_dir: &Path, full: bool) 
                 for (name, m) in metas.iter() {
                     if m.live && m.autoinc && !m.cols.is_empty() {
                         runner_n += 1;
-                        session_ids += 1;
                         if let Ok(k) = auto_insert(d, name, m, runner_n) {
                             anchors.insert(name.clone(), k);
                         }
@@ -1083,7 +1065,6 @@ fn run_history(ops: &[Op], wal: bool, dir: &Path, probe_dir: &Path, full: bool) 
                             let _ = std::fs::remove_dir_all(probe_dir);
                             if copy_dir(dir, probe_dir).is_ok() {
                                 if let Ok(mut c) = Db::open(probe_dir) {
-                                    burn_row_ids(&mut c, 0, max_key_bound.max(session_ids) + 2);
                                     for (name, _) in anchors.iter() {
                                         runner_n += 1;
                                         copy_ids.insert(name.clone(), auto_insert(&mut c, name, &metas[name], runner_n));
@@ -1132,8 +1113,6 @@ fn run_history(ops: &[Op], wal: bool, dir: &Path, probe_dir: &Path, full: bool) 
                     }
                 }
                 // ---- a clean insert with a fresh explicit id must work and be readable after the event
-                let mut retry: Vec<(String, String, i64)> = vec![];
-                let mut fresh: Vec<(String, String, i64)> = vec![];
                 for (name, m) in metas.iter() {
                     if !m.live || m.autoinc {
                         continue;
@@ -1149,53 +1128,17 @@ fn run_history(ops: &[Op], wal: bool, dir: &Path, probe_dir: &Path, full: bool) 
                     let id = 700_000_000 + runner_n;
                     let (names, vals) = runner_row(m, runner_n);
                     let sql = if names.is_empty() { format!("INSERT INTO {} (id) VALUES ({})", name, id) } else { format!("INSERT INTO {} (id, {}) VALUES ({}, {})", name, names.join(", "), id, vals.iter().map(|v| v.sql()).collect::<Vec<_>>().join(", ")) };
-                    fresh.push((name.clone(), sql, id));
-                }
-                for (name, sql, id) in fresh {
-                    session_ids += 1;
-                    match d.exec(&sql) {
-                        Ok(_) => retry.push((name, sql, id)),
-                        Err(e) if ev.is_reopen() && e.contains("key already exists") => {
-                            // row-id counter restarts at 1 on open: report once per history, then work around it
-                            if !out.soft.iter().any(|v| v.assertion == "error:insert_after_key_already_exists") {
-                                out.soft.push(Viol { sig: mk("error:insert_after_key_already_exists", None), assertion: "error:insert_after_key_already_exists".into(), detail: json!({"event": format!("{:?}", ev), "sql": elide(&sql), "error": e, "note": "a clean INSERT with a fresh primary key right after reopening"}), op_index: i });
-                            }
-                            let _ = name;
-                            retry.push((String::new(), sql, id));
-                        }
-                        Err(e) => {
-                            let obs = format!("error:insert_after_{}", err_class(&e));
-                            out.viol = Some(Viol { sig: mk(&obs, metas[&name].ctx), assertion: obs, detail: json!({"event": format!("{:?}", ev), "sql": elide(&sql), "error": e}), op_index: i });
-                            return out;
-                        }
+                    if let Err(e) = d.exec(&sql) {
+                        let obs = format!("error:insert_after_{}", err_class(&e));
+                        out.viol = Some(Viol { sig: mk(&obs, m.ctx), assertion: obs, detail: json!({"event": format!("{:?}", ev), "sql": elide(&sql), "error": e, "note": "a clean INSERT with a fresh primary key right after the event"}), op_index: i });
+                        return out;
                     }
-                }
-                if ev.is_reopen() {
-                    // advance the row-id counter past every key any earlier session can have produced
-                    max_key_bound = max_key_bound.max(session_ids);
-                    sessions += 1;
-                    let k = max_key_bound + 2;
-                    burn_row_ids(d, sessions, k);
-                    session_ids = k;
-                    out.log.push(format!("   -- (harness) CREATE TABLE zz_burn{}; INSERT {} rows into it to advance the row-id counter", sessions, k));
-                }
-                for (name, sql, id) in retry {
-                    // name is empty for an insert that has to be repeated after the work-around
-                    let tname = if name.is_empty() { sql.split_whitespace().nth(2).unwrap_or("").to_string() } else { name.clone() };
-                    if name.is_empty() {
-                        session_ids += 1;
-                        if let Err(e) = d.exec(&sql) {
-                            let obs = format!("error:insert_after_{}", err_class(&e));
-                            out.viol = Some(Viol { sig: mk(&obs, metas.get(&tname).and_then(|m| m.ctx)), assertion: obs, detail: json!({"event": format!("{:?}", ev), "sql": elide(&sql), "error": e, "note": "still failing after the row-id counter was advanced"}), op_index: i });
-                            return out;
-                        }
-                    }
-                    *runner_added.entry(tname.clone()).or_insert(0) += 1;
-                    let q = format!("SELECT * FROM {} WHERE id = {}", tname, id);
+                    *runner_added.entry(name.clone()).or_insert(0) += 1;
+                    let q = format!("SELECT * FROM {} WHERE id = {}", name, id);
                     match d.query(&q) {
                         Ok(rows) if rows.len() == 1 => {}
                         other => {
-                            out.viol = Some(Viol { sig: mk("rows", metas.get(&tname).and_then(|m| m.ctx)), assertion: "rows".into(), detail: json!({"event": format!("{:?}", ev), "inserted_after_event": elide(&sql), "read_back": q, "got": format!("{:?}", other).chars().take(300).collect::<String>()}), op_index: i });
+                            out.viol = Some(Viol { sig: mk("rows", m.ctx), assertion: "rows".into(), detail: json!({"event": format!("{:?}", ev), "inserted_after_event": elide(&sql), "read_back": q, "got": format!("{:?}", other).chars().take(300).collect::<String>()}), op_index: i });
                             return out;
                         }
                     }
@@ -1210,7 +1153,6 @@ fn run_history(ops: &[Op], wal: bool, dir: &Path, probe_dir: &Path, full: bool) 
                         }
                     }
                     runner_n += 1;
-                    session_ids += 1;
                     match auto_insert(d, name, m, runner_n) {
                         Ok(k2) => {
                             out.autoinc_pairs += 1;
@@ -1237,26 +1179,25 @@ fn run_history(ops: &[Op], wal: bool, dir: &Path, probe_dir: &Path, full: bool) 
 
 // ---------------------------------------------------------------- shrinking
 
-fn shrink(ops: &[Op], wal: bool, sig: &str, dir: &Path, probe_dir: &Path, budget: usize) -> Vec<Op> {
+fn shrink(ops: &[Op], wal: bool, sig: &str, dir: &Path, probe_dir: &Path, budget: usize, deadline: std::time::Instant) -> Vec<Op> {
     let mut cur: Vec<Op> = ops.to_vec();
     let mut runs = 0usize;
     let fails = |cand: &[Op], runs: &mut usize| -> bool {
         *runs += 1;
-        let o = run_history(cand, wal, dir, probe_dir, false);
-        o.viol.iter().chain(o.soft.iter()).any(|v| v.sig == sig)
+        run_history(cand, wal, dir, probe_dir, false).viol.map(|v| v.sig == sig).unwrap_or(false)
     };
     {
         let o = run_history(&cur, wal, dir, probe_dir, false);
-        if let Some(v) = o.viol.iter().chain(o.soft.iter()).find(|v| v.sig == sig) {
+        if let Some(v) = o.viol.iter().find(|v| v.sig == sig) {
             cur.truncate(v.op_index + 1);
         }
     }
     let mut n = 2usize;
-    while cur.len() >= 2 && runs < budget {
+    while cur.len() >= 2 && runs < budget && std::time::Instant::now() < deadline {
         let chunk = (cur.len() + n - 1) / n;
         let mut reduced = false;
         let mut start = 0;
-        while start < cur.len() && runs < budget {
+        while start < cur.len() && runs < budget && std::time::Instant::now() < deadline {
             let end = (start + chunk).min(cur.len());
             let cand: Vec<Op> = cur[..start].iter().chain(cur[end..].iter()).cloned().collect();
             if !cand.is_empty() && fails(&cand, &mut runs) {
@@ -1289,9 +1230,11 @@ pub fn run(a: &Args) -> i32 {
     );
     let mut master = Rng::derive(a.seed, 4);
     let quick = ctx.quick();
-    let budget_s = if quick { 40.0 } else { 480.0 };
+    let budget_s = if quick { 36.0 } else { 470.0 };
+    // shrinking runs on this thread: only early in the run, so that the wall budget holds
+    let shrink_until_s = if quick { 22.0 } else { 400.0 };
     let max_hist = if cfg!(miri) { 0 } else if quick { 150 } else { 2500 };
-    let max_shrinks = if quick { 4 } else { 30 };
+    let max_shrinks = if quick { 3 } else { 60 };
     let scratch = Scratch::new("c04");
     // every history gets its own generator seeded from the C04 stream; workers only overlap the fsync waits
     let seeds: std::sync::Arc<Vec<u64>> = std::sync::Arc::new((0..max_hist).map(|_| master.next()).collect());
@@ -1354,7 +1297,7 @@ pub fn run(a: &Args) -> i32 {
                 ctx.nontrivial(h ^ (k as u64 + 1).wrapping_mul(0x9E3779B97F4A7C15));
             }
         }
-        if out.viol.is_none() && out.soft.is_empty() && ctx.samples.len() < 3 && out.events_judged >= 3 {
+        if out.viol.is_none() && ctx.samples.len() < 3 && out.events_judged >= 3 {
             ctx.sample(json!({"features": feats.tags(), "history": out.log.iter().take(40).collect::<Vec<_>>()}));
         }
         if !out.stmt_error_samples.is_empty() && ctx.extra.get("statement_error_samples").map(|v| v.as_array().map(|a| a.len()).unwrap_or(0)).unwrap_or(0) < 6 {
@@ -1362,22 +1305,22 @@ pub fn run(a: &Args) -> i32 {
             cur.push(json!(out.stmt_error_samples[0]));
             ctx.extra.insert("statement_error_samples".into(), J::Array(cur));
         }
-        let all: Vec<Viol> = out.soft.iter().cloned().chain(out.viol.iter().cloned()).collect();
+        let all: Vec<Viol> = out.viol.iter().cloned().collect();
         for v in all {
             let known = ctx.is_known(&v.sig).is_some();
             let mut minimal: Option<Vec<String>> = None;
             let mut minimal_detail: Option<J> = None;
-            if !known && !shrunk.contains(&v.sig) && shrunk.len() < max_shrinks && ctx.elapsed() < budget_s {
+            if !known && !shrunk.contains(&v.sig) && shrunk.len() < max_shrinks && ctx.elapsed() < shrink_until_s {
                 shrunk.insert(v.sig.clone());
                 let sdir = scratch.dir("shrink");
                 let pdir = scratch.dir("shrinkcopy");
-                let small = shrink(&ops, feats.wal, &v.sig, &sdir, &pdir, if quick { 40 } else { 120 });
+                let small = shrink(&ops, feats.wal, &v.sig, &sdir, &pdir, if quick { 30 } else { 120 }, ctx.start + std::time::Duration::from_secs_f64(if quick { 30.0 } else { 440.0 }));
                 let again = run_history(&small, feats.wal, &sdir, &pdir, false);
-                minimal_detail = again.viol.iter().chain(again.soft.iter()).find(|x| x.sig == v.sig).map(|x| x.detail.clone());
+                minimal_detail = again.viol.iter().find(|x| x.sig == v.sig).map(|x| x.detail.clone());
                 minimal = Some(small.iter().map(|o| o.text()).collect());
             }
             if !known && (!first_of_sig.contains_key(&v.sig) || (minimal.is_some() && first_of_sig[&v.sig].get("minimal_history").map(|m| m.is_null()).unwrap_or(true))) && first_of_sig.len() < 60 {
-                first_of_sig.insert(v.sig.clone(), json!({"minimal_history": minimal.clone(), "minimal_detail": minimal_detail.clone(), "detail": v.detail.clone(), "features": feats.tags()}));
+                first_of_sig.insert(v.sig.clone(), json!({"minimal_history": minimal.clone(), "minimal_detail": minimal_detail.clone(), "detail": v.detail.clone(), "features": feats.tags(), "history": if minimal.is_none() { json!(out.log) } else { J::Null }}));
             }
             ctx.violation(&v.assertion, &v.sig, json!({"features": feats.tags(), "event_index": v.op_index, "detail": v.detail, "history": out.log, "minimal_history": minimal, "minimal_detail": minimal_detail}));
         }
@@ -1390,6 +1333,6 @@ pub fn run(a: &Args) -> i32 {
     if !first_of_sig.is_empty() {
         ctx.extra.insert("unexplained_first_of_signature".into(), json!(first_of_sig));
     }
-    ctx.assumptions.push("AUTO_INCREMENT assigns last+1 to two consecutive auto-assigned inserts (README: sequential values); PRAGMA wal is a per-handle setting and is re-issued after every open; statement results are not judged (only counted) so DML-semantics defects cannot raise a C04 alarm; a copy of the database directory is only opened while no handle is open; after every reopen the harness reports a failing clean INSERT once and then advances the row-id counter (which restarts at 1 on open) with a scratch table zz_burn<n>, so that the rest of the history keeps its rows".into());
+    ctx.assumptions.push("AUTO_INCREMENT assigns last+1 to two consecutive auto-assigned inserts (README: sequential values); PRAGMA wal is a per-handle setting and is re-issued after every open; statement results are not judged (only counted) so DML-semantics defects cannot raise a C04 alarm; a copy of the database directory is only opened while no handle is open".into());
     ctx.finish()
 }
